@@ -1,7 +1,7 @@
 (* C18 - Affected-version decisions follow the OSV range rules.
    Only statements here; proofs are in VulnsProofs.v. *)
 From Coq Require Import List ZArith NArith Bool Permutation.
-From Scalibr Require Import Lib.SortSearch Remed.Vulns Remed.VulnsProofs.
+From Scalibr Require Import Lib.SortSearch Remed.Vulns Remed.VulnsProofs Remed.VulnsMore.
 Import ListNotations.
 Open Scope Z_scope.
 
@@ -47,6 +47,52 @@ Theorem listed_version_matches : forall vuln a q,
   In (q_sid q) (a_versions a) -> is_affected vuln q = true.
 Proof. exact listed_version_matches_lemma. Qed.
 Print Assumptions listed_version_matches.
+
+(* what must not matter: the order in which a record lists its events, its ranges and its
+   affected entries (the implementation sorts a copy of the events; the rest is existsb) *)
+Theorem event_order_irrelevant : forall evs evs' v,
+  Permutation evs evs' -> wf_events evs = true -> range_hit evs' v = range_hit evs v.
+Proof. exact range_hit_event_order_irrelevant. Qed.
+Print Assumptions event_order_irrelevant.
+
+Theorem wellformedness_is_order_free : forall evs evs',
+  Permutation evs evs' -> wf_events evs = true -> wf_events evs' = true.
+Proof. exact wf_events_perm. Qed.
+Print Assumptions wellformedness_is_order_free.
+
+Theorem entry_order_irrelevant : forall vuln vuln' q,
+  Permutation vuln vuln' -> is_affected vuln' q = is_affected vuln q.
+Proof. exact is_affected_entry_order_irrelevant. Qed.
+Print Assumptions entry_order_irrelevant.
+
+Theorem range_order_irrelevant : forall a rs' q,
+  Permutation (a_ranges a) rs' ->
+  affected_matches range_hit {| a_eco := a_eco a; a_name := a_name a; a_versions := a_versions a; a_ranges := rs' |} q
+  = affected_matches range_hit a q.
+Proof. exact affected_range_order_irrelevant. Qed.
+Print Assumptions range_order_irrelevant.
+
+(* the boundary rules in closed form, for every pair of ranks a < b: introduced is inclusive,
+   fixed exclusive, last_affected inclusive, "0" precedes every version, no closing event = open end *)
+Theorem introduced_fixed_is_half_open : forall a b v, a < b ->
+  range_hit [ev Introduced a; ev Fixed b] v = (Z.leb a v && Z.ltb v b).
+Proof. exact interval_fixed. Qed.
+Print Assumptions introduced_fixed_is_half_open.
+
+Theorem introduced_last_affected_is_closed : forall a b v, a < b ->
+  range_hit [ev Introduced a; ev LastAffected b] v = (Z.leb a v && Z.leb v b).
+Proof. exact interval_last_affected. Qed.
+Print Assumptions introduced_last_affected_is_closed.
+
+Theorem zero_precedes_every_version : forall b v,
+  range_hit [ev0; ev Fixed b] v = Z.ltb v b.
+Proof. exact interval_from_zero. Qed.
+Print Assumptions zero_precedes_every_version.
+
+Theorem no_closing_event_is_open_ended : forall a v,
+  range_hit [ev Introduced a] v = Z.leb a v.
+Proof. exact open_ended. Qed.
+Print Assumptions no_closing_event_is_open_ended.
 
 (* non-vacuity: a well-formed record listed out of order, with "0", fixed and last_affected *)
 Definition ex_events : list event :=
